@@ -206,6 +206,34 @@ fn verif_pure_dir_hash()
     t.done();
 }
 
+/*  C07 / C18 assume "distinct writes carry distinct modification times"; ruler compares modification times through
+    get_timestamp: distinct times (to the microsecond) must stay distinct and ordered */
+#[test]
+fn verif_pure_timestamp()
+{
+    quiet();
+    let mut t = Tally::new("B-D-timestamp");
+    let mut micros : Vec<u64> = (0..6000u64).map(|i| i * 500).collect();
+    for base in [1_000_000u64, 60_000_000, 1_700_000_000_000_000].iter() { for d in [0u64, 1, 999, 1_000, 998_999, 999_000, 999_001, 999_999, 1_000_000, 1_000_001, 1_998_000, 1_999_999].iter() { micros.push(base + d); } }
+    micros.sort(); micros.dedup();
+    let mut last : Option<(u64, u64)> = None;
+    for m in micros.iter()
+    {
+        t.case();
+        let time = std::time::SystemTime::UNIX_EPOCH + std::time::Duration::from_micros(*m);
+        match crate::system::util::get_timestamp(time)
+        {
+            Ok(stamp) =>
+            {
+                if let Some((lm, ls)) = last { if stamp <= ls { t.wrong(&format!("{} us and {} us", lm, m), &format!("distinct modification times are stamped {} and {}", ls, stamp)); } }
+                last = Some((*m, stamp));
+            },
+            Err(_) => t.wrong(&format!("{} us", m), "get_timestamp fails for a time after the epoch"),
+        }
+    }
+    t.done();
+}
+
 fn sv(v: &[&str]) -> Vec<String> { v.iter().map(|s| s.to_string()).collect() }
 
 #[test]
